@@ -25,7 +25,7 @@ var inputTexts = []string{
 	"the quick brown fox", "I am 23 years old", "yes", "YES please", "no", "red", "blue red", "hi there", "23", "17", "-5", "1,000.50",
 	"2020-01-01", "my birthday is 01-02-2020 ok", "31-12-99", "tomorrow at 10:30", "10:30", "12:00 am", "call +12065551212 now", "0788383383",
 	"foo@bar.com", "mail me at bob@nyaruka.com", "Kigali", "kigali city", "Gasabo", "Gisozi", "book a flight", "", "  yes  ", "日本語 yes", "😀", "@(1/0)",
-	"@contact.name", "a\"b", `back\slash`, "yes.", "Yes!", "one two three four five six seven eight nine ten eleven twelve",
+	"@contact.name", "a\"b", `back\slash`, "yes.", "Yes!", "@", "@contact.name is me", " red", "one two three four five six seven eight nine ten eleven twelve",
 }
 
 var operandPool = []struct {
@@ -34,7 +34,7 @@ var operandPool = []struct {
 	w    int
 }{
 	{"@input.text", "input.text", 40}, {"@input", "input", 4}, {"@(upper(input.text))", "expr", 3}, {"@(input.text & \" \" & fields.age)", "expr", 2},
-	{"hello @input.text", "template", 3}, {"plain yes text", "literal", 2}, {"@(word(input.text, 0))", "expr-may-error", 2},
+	{"hello @input.text", "template", 3}, {"plain yes text", "literal", 2}, {"  yes  ", "literal", 2}, {"bob@@nyaruka.com", "literal", 1}, {"@@contact.name", "literal", 1}, {" @input.text ", "input.text", 2}, {"@(word(input.text, 0))", "expr-may-error", 2},
 	{"@fields.age", "field", 4}, {"@fields.gender", "field", 3}, {"@contact.fields.state", "field", 2}, {"@fields.nick", "field-unset", 2}, {"@fields.joined", "field", 2},
 	{"@contact.name", "contact", 3}, {"@contact.language", "contact", 1}, {"@contact", "contact", 1}, {"@contact.groups", "groups", 4}, {"@urns.tel", "urns", 2},
 	{"@results.prev", "result", 4}, {"@results.prev.value", "result", 3}, {"@results.prev.category", "result", 2}, {"@results.intent", "result", 4},
@@ -77,7 +77,9 @@ func argsFor(r *fw.Rand, test, hint string) []string {
 		}
 		return fw.Pick(r, alt)
 	}
-	textAlt := []string{"yes", "yes yeah", "red blue", "no", "hi there", "RED", "", "fox", "@fields.gender", "@(lower(\"YES\"))", "@globals.org_name", "@contact.name", "@results.prev.value", "male 23"}
+	textAlt := []string{"yes", "yes yeah", "red blue", "no", "hi there", "RED", "", "fox", "@fields.gender", "@(lower(\"YES\"))", "@globals.org_name", "@contact.name", "@results.prev.value", "male 23",
+		// arguments without any expression are templates too: '@@' is an '@', white space around them does not count
+		"@@contact.name", "bob@@nyaruka.com", "  yes  ", " red", "yes ", "foo@@bar.com", "@@", "\tno\n"}
 	numAlt := []string{"18", "23", "0", "100", "24", "-10", "x", "@globals.limit", "@fields.age", "@results.prev.value", "1e2", ""}
 	dateAlt := []string{"2020-01-01", "@(today())", "@(now())", "@fields.joined", "2030-12-31", "1999-12-31", "x", "@(datetime(\"2019-06-01T00:00:00Z\"))", "01-02-2020"}
 	switch test {
@@ -90,7 +92,7 @@ func argsFor(r *fw.Rand, test, hint string) []string {
 		}
 		return []string{fw.Pick(r, textAlt)}
 	case "has_pattern":
-		return []string{fw.Pick(r, []string{`\d+`, `^y`, `(?i)red`, `(`, `.*`, `(\w+) (\w+)`, `^$`, `@fields.gender`, `[a-z]+@[a-z]+\.com`})}
+		return []string{fw.Pick(r, []string{`\d+`, `^y`, `(?i)red`, `(`, `.*`, `(\w+) (\w+)`, `^$`, `@fields.gender`, `[a-z]+@[a-z]+\.com`, `\w+@@\w+\.com`, ` ^yes$ `, `^@@`})}
 	case "has_text", "has_value", "has_number", "has_date", "has_time", "has_email", "has_state", "has_error":
 		return nil
 	case "has_number_between":
@@ -169,7 +171,7 @@ type c07Meta struct {
 
 // translateArgs adds a translation of a case's arguments in lang with one of the grid states.
 func translateArgs(r *fw.Rand, loc M, lang, uuid string, base []string, mk func() string) string {
-	state := []string{"absent", "same", "empty-list", "blank", "shorter", "longer"}[r.Weighted([]int{40, 35, 5, 5, 7, 8})]
+	state := []string{"absent", "same", "empty-list", "blank", "shorter", "longer", "all-empty", "first-empty"}[r.Weighted([]int{40, 33, 5, 5, 7, 8, 5, 3})]
 	var tr []string
 	switch state {
 	case "absent":
@@ -197,6 +199,26 @@ func translateArgs(r *fw.Rand, loc M, lang, uuid string, base []string, mk func(
 			tr = append(tr, mk())
 		}
 		tr = append(tr, mk())
+	case "all-empty":
+		// as many elements as the base, every one of them empty: a translation like any other unless it is [] or [""]
+		for range base {
+			tr = append(tr, "")
+		}
+		if len(tr) < 2 {
+			tr = []string{"", ""}
+		}
+	case "first-empty":
+		for i := range base {
+			if i == 0 {
+				tr = append(tr, "")
+			} else {
+				tr = append(tr, mk())
+			}
+		}
+		if len(tr) < 2 {
+			tr = append(tr, mk(), mk())[:2]
+			tr[0] = ""
+		}
 	}
 	setLoc(loc, lang, uuid, "arguments", tr)
 	return state
@@ -428,7 +450,8 @@ func genC07(r *fw.Rand) (*gen.Scenario, *c07Meta) {
 			np := r.Range(1, 3)
 			var pe []M
 			for i := 0; i < np; i++ {
-				dst := "r"
+				// the first exit is the one that counts, whether or not it leads anywhere (and whether or not a later one does)
+				dst := fw.Pick(r, []string{"r", "r", "r", "", "sink0"})
 				if i > 0 {
 					dst = fw.Pick(r, []string{"r", "sink0", ""})
 				}
